@@ -564,6 +564,41 @@ func matchState(t *iavl.MutableTree, lv int64, st *State, pal *palette.Palette) 
 			}
 		}
 	}
+	// the handle itself (no uncommitted changes): its iterator merges the persisted index with the
+	// (empty) overlay, its Get goes through the index - both must show the latest version, and nothing
+	// at all when no version exists
+	latest := map[string]string{}
+	if tr := st.Saved[st.Latest]; st.Latest > 0 && tr != nil {
+		for _, l := range tr.Leaves() {
+			latest[string(pal.Key(l.K))] = string(pal.Value(l.V))
+		}
+	}
+	itr, err := t.Iterator(nil, nil, true)
+	if err != nil {
+		return "handle: Iterator: " + err.Error()
+	}
+	n := 0
+	for ; itr.Valid(); itr.Next() {
+		want, ok := latest[string(itr.Key())]
+		if !ok || want != string(itr.Value()) {
+			k, val := append([]byte(nil), itr.Key()...), append([]byte(nil), itr.Value()...)
+			itr.Close()
+			return fmt.Sprintf("handle: the iterator yields %x=%x, which the latest version (%d) does not have", k, val, st.Latest)
+		}
+		n++
+	}
+	err = itr.Error()
+	itr.Close()
+	if err != nil || n != len(latest) {
+		return fmt.Sprintf("handle: the iterator yields %d pairs, the latest version (%d) has %d (%v)", n, st.Latest, len(latest), err)
+	}
+	for k := 1; k <= pal.K; k++ {
+		val, err := t.Get(pal.Key(k))
+		want, ok := latest[string(pal.Key(k))]
+		if err != nil || (val != nil) != ok || (ok && string(val) != want) {
+			return fmt.Sprintf("handle: Get(%x) = %x, %v; the latest version (%d) has %x (present %v)", pal.Key(k), val, err, st.Latest, want, ok)
+		}
+	}
 	return ""
 }
 
